@@ -687,7 +687,7 @@ func bitfieldBytes(header uint64, words int) []byte {
 	b := make([]byte, 8+8*words)
 	binary.BigEndian.PutUint64(b, header)
 	for i := 0; i < words; i++ {
-		binary.BigEndian.PutUint64(b[8+8*i:], 0xFFFF0000FFFF0000)
+		binary.BigEndian.PutUint64(b[8+8*i:], 0xFFFFFFFFFFFFFFFF)
 	}
 	return b
 }
@@ -801,6 +801,40 @@ func runW(c WCase) pbt.Verdict {
 		}
 		if aerr == nil && pc != nil {
 			classes = append(classes, "handshake-accepted")
+			// what the scheduler does next with an accepted handshake: the peer's bitfield
+			// and its remote bitfields go to the torrent's dispatcher
+			d, derr := newDispatcher(v)
+			if derr == nil {
+				defer d.TearDown()
+				hostile := newFakePeer()
+				var hp *dispatch.VerifPeer
+				var perr error
+				pmsg, alloc := guarded(func() {
+					hp, perr = d.VerifAddPeer(pc.PeerID(), false, pc.Bitfield(), hostile)
+					if perr == nil && hp != nil {
+						d.VerifRequestMore(hp)
+						d.VerifDispatch(hp, conn.NewAnnouncePieceMessage(0))
+						d.RemoteBitfields()
+						d.VerifRemovePeer(hp)
+					}
+				})
+				if pmsg != "" {
+					return pbt.Fail("panic when the bitfield of an accepted handshake %+v (decoded length %d) is handed to the dispatcher of a %d-piece torrent: %s", c.Frames[0], pc.Bitfield().Len(), v.n(), pmsg)
+				}
+				if alloc > limit {
+					return pbt.Fail("handing the bitfield of an accepted handshake %+v to the dispatcher allocated %d bytes (bound %d)", c.Frames[0], alloc, limit)
+				}
+				for _, m := range hostile.take() {
+					if m.Message.Type == p2p.Message_PIECE_REQUEST && m.Message.PieceRequest != nil {
+						if i := int(m.Message.PieceRequest.Index); i < 0 || i >= v.n() {
+							return pbt.Fail("victim requested piece %d outside [0,%d) from a peer whose handshake was %+v", i, v.n(), c.Frames[0])
+						}
+					}
+				}
+				if perr == nil {
+					classes = append(classes, "handshake-bitfield-accepted-by-dispatcher")
+				}
+			}
 		} else {
 			classes = append(classes, "handshake-rejected")
 		}
